@@ -190,6 +190,75 @@ def mk_tf(gtype, masked_by, before):
   return t
 
 
+def mk_tf_tree(gtype):
+  """A parameter TREE with two preconditioned leaves: each leaf's update has the direction of ITS preconditioned gradient
+  and the norm of ITS graft step (the norms are per parameter, not global)."""
+
+  def t(ctx, it):
+    g = it.load_module(GR)
+    ps = it.load_module(PS)
+    start = spec.fresh_int("start_preconditioning_step", lo=0)
+    decay = spec.fresh_real("second_moment_decay")
+    ctx.assume(sym.sand(decay > 0, decay <= 1))
+    eps = spec.fresh_real("epsilon", lo=0)
+    limit = spec.fresh_int("skip_any_dim_gt", lo=1)
+    shapes = {"a": tuple(spec.fresh_int(f"a{k}", lo=1) for k in range(2)), "b": tuple(spec.fresh_int(f"b{k}", lo=1) for k in range(2))}
+    for sh_ in shapes.values():
+      ctx.assume(sym.sand(*[d <= limit for d in sh_]))
+    opts = g.Options(grafting_type=g.GraftingType[gtype], second_moment_decay=decay, start_preconditioning_step=start, epsilon=eps,
+                     skip_preconditioning_any_dim_gt=limit, skip_preconditioning_rank1=True)
+    from pyvc import deps as _deps
+    base = {k: _deps.register_input(T.opaque("base_" + k, sh_), "base_" + k) for k, sh_ in shapes.items()}
+    direction = ps.ShardedGradientTransformation(lambda p: "dstate", lambda u, s_, p=None: (base, s_), None)
+    tx = g.graft(opts, direction)
+    grad = {k: _deps.register_input(T.opaque("grad_" + k, sh_), "grad_" + k) for k, sh_ in shapes.items()}
+    count = spec.fresh_int("count", lo=0)
+    ctx.assume(count >= start)
+    if gtype == "RMSPROP":
+      acc = {k: _deps.register_input(T.opaque("acc_" + k, sh_), "acc_" + k) for k, sh_ in shapes.items()}
+      norm_state = g.RMSPropAccumulator(acc=acc)
+    else:
+      norm_state = tx.init(grad).norm
+    state = g.GraftingState(count=T.asarray(count), direction="dstate", norm=norm_state)
+    n0 = len(ctx.ghost.setdefault("reduce_calls", []))
+    out, _ = tx.update(grad, state, grad)
+    norms = [r for r in ctx.ghost["reduce_calls"][n0:] if r.kind == "norm"]
+    tag = "grafting._graft_with.update_fn[tree]"
+    for k, sh_ in shapes.items():
+      x = D.skolem(ctx, sh_, "x" + k)
+      y = D.skolem(ctx, sh_, "y" + k)
+      gy = grad[k].at(y)
+      if gtype == "SGD":
+        graft_y = gy
+      else:
+        acc_y = sym.ite(decay == 1, gy * gy + acc[k].at(y), gy * gy * (1 - decay) + decay * acc[k].at(y))
+        ctx.assume(acc_y + eps > 0)
+        graft_y = gy * (1.0 / sym.ssqrt(acc_y + eps))
+      from pyvc import deps
+
+      def reads_of(r):
+        try:
+          return {nm for nm, _ in deps.collect(r.x.at(y)).items}
+        except Exception:  # pylint: disable=broad-except
+          return {"?"}
+
+      same_shape = lambda r: len(r.x.shape) == len(sh_) and all(sym.prove(p_ == q_) for p_, q_ in zip(r.x.shape, sh_))
+      cand = [r for r in norms if same_shape(r)]
+      nb = [r for r in cand if reads_of(r) == {"base_" + k}]
+      ng = [r for r in cand if reads_of(r) and reads_of(r) <= {"grad_" + k, "acc_" + k} and "grad_" + k in reads_of(r)]
+      if not nb or not ng:
+        ctx.oblige(f"{tag}.leaf {k}: the update is scaled by the norm of ITS graft step over the norm of ITS preconditioned gradient "
+                   "(norm reductions over exactly those two tensors)", False, detail=f"norm reductions: {len(norms)}")
+        continue
+      ctx.oblige(f"{tag}.leaf {k}: graft-norm ranges over the leaf's graft step", ng[0].x.at(y) == graft_y)
+      ctx.oblige(f"{tag}.leaf {k}: base-norm ranges over the leaf's preconditioned gradient", nb[0].x.at(y) == base[k].at(y))
+      Nb, Ng = nb[0].value(()), ng[0].value(())
+      ctx.oblige(f"{tag}.leaf {k}: |base|>0: out*|base| = base*|graft| with the leaf's OWN norms",
+                 sym.implies(Nb > 0, out[k].at(x) * Nb == base[k].at(x) * Ng))
+
+  return t
+
+
 def tasks(tier):
   ts = []
   for graft in D.GRAFTS:
@@ -197,6 +266,8 @@ def tasks(tier):
       for sched in (False, True):
         for skip in (False, True):
           ts.append(Task(f"DS graft[{graft},dlr={int(dlr)},sched={int(sched)},skip={int(skip)}]", mk_ds(graft, dlr, sched, skip)))
+  for gt in ("SGD", "RMSPROP"):
+    ts.append(Task(f"tearfree graft on a two-leaf tree[{gt}]", mk_tf_tree(gt)))
   for gt in ("SGD", "RMSPROP"):
     for masked in ("no", "rank1", "dim"):
       for before in (False, True):
